@@ -50,7 +50,7 @@ func init() {
 func init() {
 	properties["C01"] = Property{
 		Level: "exploration",
-		Rule:  "one case = (history prefix, event, state kind[, parent]) dispatched through FindRules.Do and compared with the model; histories of 8-30 AddRule/replace/RemRule/AddFact-on-rule-id/RemFact/EnableRule/Clear steps over 4 ids (+2 in a parent); events derived from current and former `when` patterns; non-trivial = the model expects >=1 rule dispatched or the event matches a former pattern; distinct by canonical JSON of (state, history prefix, event); every fifth judged event with expected dispatch also runs through ProcessEvent and is submitted once more by a script (Env.ProcessEvent): same rules, same number of action values",
+		Rule:  "one case = (history prefix, event, state kind[, parent]) dispatched through FindRules.Do and compared with the model; histories of 8-30 AddRule/replace/RemRule/AddFact-on-rule-id/RemFact/EnableRule/Clear steps over 4 ids (+2 in a parent); events derived from current and former `when` patterns; non-trivial = the model expects >=1 rule dispatched or the event matches a former pattern; distinct by canonical JSON of (state, history prefix, event); every fifth judged event with expected dispatch also runs through ProcessEvent and is submitted once more by a script (Env.ProcessEvent): same rules, same number of action values; 1 rule in 8 gives its pattern directly as the `when` value, 1 in 10 has a property variable as its only key",
 		Floor: [2]int{500, 5000},
 		Assumptions: []string{"lib/ref.Match + lib/ref.Loc are the specification; rules use the documented {\"when\":{\"pattern\":P}} form; an operation that returns an error leaves its id 'unknown' until rewritten"},
 		Stages: []Stage{{Name: "dispatch", Pkg: "./mon/c01", Procs: 1, Batches: [2]int{8, 16}, TimeoutS: [2]int{600, 3000}}},
